@@ -11,6 +11,19 @@ set_option linter.unusedVariables false
 namespace Poetry.C16
 open Poetry Generic
 
+/-- **Everything `parse_extra_constraint` returns is well-formed** (`wfX`), for every input string — so the
+`extra` theorems below apply to all parsed constraints and, by their `wfX` conclusions, to everything
+`intersect`/`union` build from them. -/
+theorem x_parse_wellformed (s : String) (c : GC) (h : parseExtraConstraint s = .ok c) : c.wfX = true :=
+  parseExtra_wfX s c h
+
+/-- The single-valued counterpart: whatever `parse_constraint` returns that mentions only `==`/`!=` is `wfG`.
+NOT proved (a clause list may pass through `in`/`not in` atoms that an `==` clause then absorbs, so the proof
+needs a wider invariant than `wfG`); instances are checked by `decide` in the examples and on every
+correspondence run (the parser's dump is compared with the real one). -/
+def g_parse_wellformed_full_statement : Prop :=
+  ∀ (s : String) (c : GC), parseConstraint s = .ok c → c.frag = true → c.wfG = true
+
 /-- **Membership is never an error and is the denotation**: `c.allows(Constraint(v))` for every
 constraint object and every string. -/
 theorem g_allows_is_den (c : GC) (v : String) (x : Bool) :
@@ -43,6 +56,48 @@ theorem g_invert_exact (a r : GC) (h : a.invert = .ok r) (v : String) : r.den v 
 
 example : ∃ a r, parseConstraint "a || b" = .ok a ∧ a.invert = .ok r ∧
     r = .multi false [⟨"a", .ne, false⟩, ⟨"b", .ne, false⟩] := ⟨_, _, rfl, rfl, rfl⟩
+
+/-- **`extra` variant: intersection and union are defined and exact**, where a value is the *set* `E` of
+active extras (an arbitrary predicate on strings). -/
+theorem x_intersect_exact (a b : GC) (ha : a.wfX = true) (hb : b.wfX = true) :
+    ∃ r, a.intersect b = .ok r ∧ r.wfX = true ∧ ∀ E, r.denX E = (a.denX E && b.denX E) :=
+  GC.intersect_X a b ha hb
+
+theorem x_union_exact (a b : GC) (ha : a.wfX = true) (hb : b.wfX = true) :
+    ∃ r, a.unionWith b = .ok r ∧ r.wfX = true ∧ ∀ E, r.denX E = (a.denX E || b.denX E) :=
+  GC.unionWith_X a b ha hb
+
+example : ∃ a b r, parseExtraConstraint "a, !=b || c" = .ok a ∧ parseExtraConstraint "!=a || b, c" = .ok b ∧
+    a.wfX = true ∧ b.wfX = true ∧ a.intersect b = .ok r ∧
+    r = .union [.multi true [⟨"c", .eq, true⟩, ⟨"a", .ne, true⟩], .multi true [⟨"b", .eq, true⟩, ⟨"c", .eq, true⟩]] :=
+  ⟨_, _, _, rfl, rfl, by decide, by decide, rfl, rfl⟩
+
+/-- `extra` variant: inversion, where provided, is exact for every set `E` of active extras
+(`E` is an arbitrary predicate on strings, so infinite sets are covered as well). -/
+theorem x_invert_exact (a r : GC) (ha : a.wfX = true) (h : a.invert = .ok r) (E : String → Bool) :
+    r.denX E = !a.denX E := GC.invert_X a r (GC.frag_of_wfX ha) h E
+
+example : ∃ a r, parseExtraConstraint "a, !=b" = .ok a ∧ a.wfX = true ∧ a.invert = .ok r ∧
+    r = .union [.atom ⟨"a", .ne, true⟩, .atom ⟨"b", .eq, true⟩] := ⟨_, _, rfl, by decide, rfl, rfl⟩
+
+/-- **"allows all" answering yes is never wrong**: every value the second operand admits is admitted by
+the first.  (Only the second operand has to be in the `==`/`!=` fragment.) -/
+theorem g_allows_all_sound (a b : GC) (hb : b.wfG = true) (h : a.allowsAll b = true) (v : String)
+    (hv : b.den v = true) : a.den v = true :=
+  GC.allowsAll_sound a b (GC.frag_of_wfG hb) h v hv
+
+example : ∃ a b, parseConstraint "!=a || b" = .ok a ∧ parseConstraint "!=a, !=c" = .ok b ∧
+    b.wfG = true ∧ a.allowsAll b = true := ⟨_, _, rfl, rfl, by decide, by decide⟩
+
+/-- **"allows any" answering no is never wrong**: no value is admitted by both operands. -/
+theorem g_allows_any_sound (a b : GC) (ha : a.wfG = true) (hb : b.wfG = true) (h : a.allowsAny b = false)
+    (v : String) : ¬ (a.den v = true ∧ b.den v = true) := by
+  rintro ⟨h1, h2⟩
+  rw [GC.allowsAny_sound a b (GC.frag_of_wfG ha) (GC.frag_of_wfG hb) v h1 h2] at h
+  cases h
+
+example : ∃ a b, parseConstraint "!=a, !=b" = .ok a ∧ parseConstraint "a || b" = .ok b ∧
+    a.wfG = true ∧ b.wfG = true ∧ a.allowsAny b = false := ⟨_, _, rfl, rfl, by decide, by decide, by decide⟩
 
 /-- **A constraint reporting itself universal admits every value**, and one reporting itself empty
 admits none (every constraint object, both semantics). -/
